@@ -508,6 +508,7 @@ func runC14Case(tier string, seed uint64, idx int, keepDir string) *CaseResult {
 
 type monC14Run struct {
 	want map[string]float64
+	ref  *Scenario // the same project with the line values written into the configuration file and nothing on the line
 }
 
 func (m *monC14Run) Event(ev *hermes.VerifEvent, rc *RunCtx) {
@@ -533,6 +534,7 @@ func (m *monC14Run) Event(ev *hermes.VerifEvent, rc *RunCtx) {
 func (m *monC14Run) Finish(rc *RunCtx) {
 	sc := rc.Sc
 	if rc.Res.Status != "ok" {
+		m.compareWithReference(rc)
 		return
 	}
 	ext := sc.ResultExt
@@ -568,6 +570,39 @@ func (m *monC14Run) Finish(rc *RunCtx) {
 		rc.Cov("full_runs_checked", 1)
 	}
 	rc.Res.NonTrivial = rc.Res.Days > 30
+	m.compareWithReference(rc)
+}
+
+// compareWithReference: a value on the batch line must act exactly like the same value in the configuration file. The project is
+// run a second time with the line values written into config.yml (no decoys, no key=value tokens, no fileExtension=: the input
+// files carry their standard names, so that this reference does not depend on how a format value and a file name interact): both runs must end the same
+// way and write byte-identical result files. A line value that is parsed into the effective configuration but not used by the
+// code that consumes it (a reader choosing its format from something else) shows up here, whatever the key.
+func (m *monC14Run) compareWithReference(rc *RunCtx) {
+	if m.ref == nil || (rc.Res.Status != "ok" && rc.Res.Status != "run_error") {
+		return
+	}
+	refRoot, err := os.MkdirTemp(scratchBase, "c14ref")
+	if err != nil {
+		return
+	}
+	defer os.RemoveAll(refRoot)
+	b := runPlain(m.ref, refRoot, nil)
+	if b.Status != "ok" {
+		return // the project itself does not run: nothing to compare the line values with
+	}
+	a := &plainRun{Status: rc.Res.Status, Err: rc.Res.Err, Files: map[string][]byte{}}
+	entries, _ := os.ReadDir(rc.ResultDir)
+	for _, e := range entries {
+		if !e.IsDir() {
+			c, _ := os.ReadFile(filepath.Join(rc.ResultDir, e.Name()))
+			a.Files[e.Name()] = c
+		}
+	}
+	rc.Cov("full_runs_compared_with_values_in_file", 1)
+	if ok, why := compareRuns(a, b, nil); !ok {
+		rc.Violate("C14", "line_values_act_differently_from_file_values", fmt.Sprintf("line %v over decoys in the file vs the same values in the file: %s", rc.Sc.ExtraArgs, why), 0, 0, nil)
+	}
 }
 
 func runC14FullRun(tier string, seed uint64, idx int, keepDir string) *CaseResult {
@@ -595,12 +630,48 @@ func runC14FullRun(tier string, seed uint64, idx int, keepDir string) *CaseResul
 	add("Latitude", fmtG(sc.Latitude), fmtG(sc.Latitude/2+1))
 	add("Fertilization", fmtG(sc.Fertilizat), fmtG(sc.Fertilizat+10))
 	add("KcFactorBareSoil", fmtG(sc.KcBare), fmtG(sc.KcBare/2))
+	// the input formats: the format named on the line is the one the files are in, the file names the other one; half of the
+	// runs also give fileExtension= (rotation, polygon and automatic-management files carry that extension, which says nothing
+	// about their format - also when it reads "csv" or "txt")
+	rf := NewRng(mix(mix(seed, uint64(idx)), 141415))
+	if rf.Bool(0.5) {
+		sc.FileExt = pickS(rf, []string{"v2", "csv", "txt", "alt", "v2csv"})
+	}
+	two := func(b bool, x, y string) (string, string) {
+		if b {
+			return x, "\"" + y + "\""
+		}
+		return y, "\"" + x + "\""
+	}
+	if rf.Bool(0.7) {
+		l, d := two(sc.RotCSV, "csv", "txt")
+		add("CropFileFormat", l, d)
+	}
+	if rf.Bool(0.5) {
+		l, d := two(sc.Soil.CSV, "csv", "txt")
+		add("SoilFileExtension", l, d)
+	}
+	if rf.Bool(0.5) {
+		l, d := two(sc.CropParamYml, "yml", "txt")
+		add("CropParameterFormat", l, d)
+	}
+	if rf.Bool(0.5) {
+		l, d := two(sc.MeasCSV, "csv", "txt")
+		add("MeasurementFileFormat", l, d)
+	}
+	if rf.Bool(0.5) {
+		names := []string{"polygonfile", "soilfile", "gwTimeSeries"}
+		add("GroundWaterFrom", strconv.Itoa(sc.GWMode), names[(sc.GWMode+1+rf.Intn(2))%3]) // the line takes the number of the source
+	}
+	ref := cloneScenario(sc)
+	ref.ExtraArgs, ref.FileOverrides = nil, nil
+	ref.FileExt = "" // and its input files under their standard names: fileExtension= only renames the files that are read
 	// random argument order
 	for i := len(sc.ExtraArgs) - 1; i > 0; i-- {
 		j := r.Intn(i + 1)
 		sc.ExtraArgs[i], sc.ExtraArgs[j] = sc.ExtraArgs[j], sc.ExtraArgs[i]
 	}
-	res := runScenario(sc, []Monitor{&monC14Run{}}, keepDir)
+	res := runScenario(sc, []Monitor{&monC14Run{ref: ref}}, keepDir)
 	res.Sample = map[string]interface{}{"full_run_line_overrides": sc.ExtraArgs, "file_decoys": sc.FileOverrides}
 	return res
 }
@@ -609,8 +680,8 @@ func init() {
 	caseRunners["C14"] = runC14Case
 	otherChecks["C14"] = func(tier string, seed uint64) int {
 		spec := checkSpec{Prop: "C14", Level: "exploration", NQuick: 800, NThorough: 16000,
-			Rule:   fmt.Sprintf("7 of 8 case indices: %d generated configuration cases each (random subsets of all %d scalar keys in the file and/or on the line, values of every kind incl. the eight on/off spellings, unknown keys, missing file, two random argument orders), effective configuration read back from the real reader by probe-and-abort and compared key by key with default<-file<-line; 1 of 8: a full run whose line values differ from decoy file values, checked in the run state and the result files. evaluations = configuration cases + full runs; non-trivial = cases with at least one key present in both file and line, full runs > 30 days", c14SubCases, len(configKeys())),
-			Floors: []string{"key_checks", "keys_in_both", "keys_from_default", "unknown_keys_on_line", "cases_without_config_file", "cases_short_date_format", "order_permutations", "full_runs_checked", "run_value_checks"}}
+			Rule:   fmt.Sprintf("7 of 8 case indices: %d generated configuration cases each (random subsets of all %d scalar keys in the file and/or on the line, values of every kind incl. the eight on/off spellings, unknown keys, missing file, two random argument orders), effective configuration read back from the real reader by probe-and-abort and compared key by key with default<-file<-line; 1 of 8: a full run whose line values differ from decoy file values, checked in the run state and the result files, the input-format keys (rotation, soil, crop-parameter and measurement file format, groundwater source) among them and half of the runs with fileExtension=; every full run is repeated with the line values written into the file, nothing on the line and the input files under their standard names: same end, byte-identical result files. evaluations = configuration cases + full runs; non-trivial = cases with at least one key present in both file and line, full runs > 30 days", c14SubCases, len(configKeys())),
+			Floors: []string{"key_checks", "keys_in_both", "keys_from_default", "unknown_keys_on_line", "cases_without_config_file", "cases_short_date_format", "order_permutations", "full_runs_checked", "run_value_checks", "full_runs_compared_with_values_in_file"}}
 		return runSimCheck(spec, tier, seed)
 	}
 }
